@@ -73,7 +73,7 @@ impl Cfg {
 }
 
 /// (bounded side, other side) for the cheap classes.
-fn bounded_other(max_medium: usize) -> BoxedStrategy<(usize, usize, &'static str)> {
+pub fn bounded_other(max_medium: usize) -> BoxedStrategy<(usize, usize, &'static str)> {
     let tiny = (1usize..=8, 1usize..=8).prop_map(|(a, b)| (a, b, "tiny"));
     let small = (1usize..=64, 1usize..=64).prop_map(|(a, b)| (a, b, "small"));
     let edge = |maxa: u32| {
